@@ -356,7 +356,6 @@ func parseEmbed(t *Tree, start Pos) (Node, error) {
 				return nil, err
 			}
 			if tok.value == "endembed" {
-				t.next()
 				_, err := t.expect(tokenTagClose)
 				if err != nil {
 					return nil, err
